@@ -742,10 +742,12 @@ func (w *world) run(st Step) StepRes {
 			if t == nil || t.kind != kindAdv {
 				return errors.New("not an adv token")
 			}
-			v := amountOf(st.Amount).BigInt()
+			var v *big.Int
 			if strings.HasPrefix(st.To, "@") { // value is an address
 				ad, _ := w.resolveAddr(st.To)
 				v = new(big.Int).SetBytes(ad.Bytes())
+			} else {
+				v = amountOf(st.Amount).BigInt()
 			}
 			return w.advSet(ctx, t, big.NewInt(int64(st.Slot)), v)
 		})
